@@ -1113,6 +1113,28 @@ func ruleR8_9(w *World, r *Report) {
 		}
 	}
 	if inner == nil {
+		// the literals may be examined by a helper that is handed the clause (`sat, unbound, unit := pb.clauseStatus(clause)`)
+		for b := range obody {
+			for _, ins := range b.Instrs {
+				c, ok := ins.(*ssa.Call)
+				if !ok {
+					continue
+				}
+				passes := false
+				for _, a := range c.Call.Args {
+					if a == clauseElem {
+						passes = true
+					}
+				}
+				g := c.Call.StaticCallee()
+				if !passes || g == nil || len(g.Blocks) == 0 || w.PkgName(g) != "explain" || len(loopHeaders(g)) == 0 {
+					continue
+				}
+				inner = c.Block() // what follows the call has looked at the clause
+			}
+		}
+	}
+	if inner == nil {
 		r.Unk("R8.9", w.FuncName(prop)+" clause loop", w.Pos(prop.Pos()), "no nested loop over the literals of the clause found")
 		return
 	}
